@@ -13,10 +13,15 @@
   Only property theorems live in this file; helper lemmas are in Lemmas/Router*.lean.
   "Reachable" below always means `run (init …) ops` for an arbitrary history `ops` — any mix
   of createPair / removePair in either token order by any caller, management calls, liquidity
-  operations, swaps and multi-hop swaps with arbitrary arguments; failed calls are skipped.
+  operations, swaps and multi-hop swaps, enable-by-user configuration, simple-lock lock / unlock,
+  `setSwapEnabledByUser` and epoch changes with arbitrary arguments; failed calls are skipped.
+
+  The router's `EnableSwapByUserModule` (enable_swap_by_user.rs) is the one way in which somebody
+  other than the owner changes a pair's state and fee percents through the router; the section
+  "swaps enabled by the user" pins down who, when, on which pair and with which payment, and that
+  a pair the owner paused cannot be brought back that way.
 -/
-import MxModel.Lemmas.RouterInv
-import MxModel.Lemmas.PairSpec
+import MxModel.Lemmas.RouterPause
 
 namespace Mx.C14
 open Mx.Router
@@ -200,6 +205,28 @@ theorem creation_flag_owner_only {s s' : St} {op : Op} {o : Out} (h : step s op 
     simp only [step, swapOut, Option.bind_eq_bind, Option.bind_eq_some_iff, Option.pure_def,
       Option.some.injEq, Prod.mk.injEq] at h
     obtain ⟨p, _, _, _, _, _, r, _, rfl, _⟩ := h
+    exact absurd rfl hne
+  | configEnable c common locked mv mp =>
+    obtain ⟨_, _, _, _, rfl⟩ := configEnable_spec h
+    exact absurd rfl hne
+  | addCommon c toks =>
+    obtain ⟨_, _, rfl⟩ := addCommon_spec h
+    exact absurd rfl hne
+  | removeCommon c toks =>
+    obtain ⟨_, rfl⟩ := removeCommon_spec h
+    exact absurd rfl hne
+  | enableByUser c a k amount =>
+    obtain ⟨_, _, _, _, p, _, _, _, _, _, _, _, _, _, _, _, _, rfl⟩ := enableByUser_spec h
+    exact absurd rfl hne
+  | enablePlain c a tok amount => cases h
+  | lock u coll orig amount unlock =>
+    obtain ⟨_, _, _, h4⟩ := lockTokens_spec h
+    rcases h4 with ⟨_, rfl, _⟩ | ⟨_, _, rfl⟩ <;> exact absurd rfl hne
+  | unlock u k amount =>
+    obtain ⟨_, _, _, _, rfl⟩ := unlockTokens_spec h
+    exact absurd rfl hne
+  | advance e =>
+    obtain ⟨_, rfl⟩ := advance_spec h
     exact absurd rfl hne
 
 /-! ### only registered pairs can be paused, resumed, configured or used as hops -/
@@ -394,6 +421,224 @@ theorem hop_amounts {m : Reg} {w w' : Pairs} {g : Hop} {tok : Tok} {amt out resi
     · have := hle; rw [ho] at this; exact this
     · rw [h2, ho]
 
+/-! ### swaps enabled by the user (`EnableSwapByUserModule`) -/
+
+/-- A successful `setSwapEnabledByUser(a)` by `c` paying `amount` LOCKED tokens of class `k`
+    implies: the router is active; `a` passes `check_is_pair_sc` (on reachable states: is in the
+    registry — `enable_by_user_registered`); the pair's state before the call is PartialActive
+    (initial liquidity added, swaps not yet enabled — in particular NOT Inactive / paused and not
+    Active); the caller is the pair's initial liquidity adder; the payment is a positive amount the
+    caller owns of the locked token configured for the pair's common token (first pool token if
+    whitelisted, else the second if whitelisted) and it wraps exactly this pair's LP token; its
+    value in the common token — the pair's own `getTokensForGivenPosition(amount)` — reaches the
+    configured minimum; and the remaining lock `unlock − now` (0 once passed) reaches the
+    configured minimum period. -/
+theorem enable_by_user_requires {s s' : St} {c a : Addr} {k : LTok} {amount : Nat} {o : Out}
+    (h : step s (.enableByUser c a k amount) = some (s', o)) :
+    s.active = true ∧ checkIsPairSc s.pairMap s.pairs a = some () ∧
+    ∃ p common cfg, s.pairs a = some p ∧
+      p.st.status = .partialActive ∧
+      p.st.adder = some c ∧
+      0 < amount ∧ amount ≤ s.lbal c k ∧
+      s.enableCfg common = some cfg ∧ k.coll = cfg.lockedTok ∧ k.orig = a ∧
+      ((p.t1 ∈ s.commonToks ∧ common = p.t1 ∧
+          cfg.minValue ≤ (Mx.Pair.viewTokensForPosition p.st amount).1) ∨
+       (p.t1 ∉ s.commonToks ∧ p.t2 ∈ s.commonToks ∧ common = p.t2 ∧
+          cfg.minValue ≤ (Mx.Pair.viewTokensForPosition p.st amount).2)) ∧
+      cfg.minPeriod ≤ k.unlock - s.epoch := by
+  obtain ⟨h0, hb, h1, hc, p, cv, cfg, hp, h2, h3, hcv, hcfg, h4, h5, h6, h7, _, _⟩ :=
+    enableByUser_spec h
+  have hper : cfg.minPeriod ≤ k.unlock - s.epoch := by
+    unfold lockedEpochs at h6
+    split at h6
+    · exact h6
+    · exact Nat.le_trans h6 (Nat.zero_le _)
+  refine ⟨h1, hc, p, cv.1, cfg, hp, h2, h7, h0, hb, hcfg, h4, h3, ?_, hper⟩
+  rcases lpValue_spec hcv with ⟨hw, rfl⟩ | ⟨hw1, hw2, rfl⟩
+  · exact Or.inl ⟨hw, rfl, h5⟩
+  · exact Or.inr ⟨hw1, hw2, rfl, h5⟩
+
+/-- … and on every reachable state that means: the pair is registered in the router -/
+theorem enable_by_user_registered (owner self : Addr) (template : Bool) (foreign : List PairRec)
+    (funds : Addr → Nat → Nat) (ops : List Op) {s' : St} {c a : Addr} {k : LTok} {amount : Nat}
+    {o : Out}
+    (h : step (run (init owner self template foreign funds) ops) (.enableByUser c a k amount)
+      = some (s', o)) :
+    a ∈ (run (init owner self template foreign funds) ops).pairMap.map Prod.snd :=
+  (checkIsPairSc_iff_mem (run_inv ops (inv_init owner self template foreign funds)) a).mp
+    (enable_by_user_requires h).2.1
+
+/-- The effect of a successful `setSwapEnabledByUser(a)`: the pair is Active with fee percents
+    (USER_DEFINED_TOTAL_FEE_PERCENT, DEFAULT_SPECIAL_FEE_PERCENT) = (1000, 50) and nothing else
+    about it changes (reserves, supply, balances, fee destinations); no other pair changes; the
+    caller gets the locked tokens back in full — every LOCKED balance of every account, the
+    router's included, is what it was — and the output names exactly that payment; the router's
+    pool-token balances, the accounts' balances, the registry and the router's flags and
+    configuration are untouched. -/
+theorem enable_by_user_effect {s s' : St} {c a : Addr} {k : LTok} {amount : Nat} {o : Out}
+    (h : step s (.enableByUser c a k amount) = some (s', o)) :
+    ∃ p, s.pairs a = some p ∧
+      s'.pairs a = some { p with st := { p.st with total := 1000, special := 50,
+                                                   status := .active } } ∧
+      (∀ x, x ≠ a → s'.pairs x = s.pairs x) ∧
+      o.back = some (k, amount) ∧
+      (∀ u k', s'.lbal u k' = s.lbal u k') ∧
+      (∀ t, s'.rbal t = s.rbal t) ∧ s'.ubal = s.ubal ∧
+      s'.pairMap = s.pairMap ∧ s'.active = s.active ∧ s'.creationEnabled = s.creationEnabled ∧
+      s'.commonToks = s.commonToks ∧ s'.enableCfg = s.enableCfg ∧ s'.epoch = s.epoch := by
+  obtain ⟨_, _, _, _, p, _, _, hp, _, _, _, _, _, _, _, _, rfl, rfl⟩ := enableByUser_spec h
+  refine ⟨p, hp, ?_, ?_, rfl, fun _ _ => rfl, fun _ => rfl, rfl, rfl, rfl, rfl, rfl, rfl, rfl⟩
+  · show setPairSt s.pairs a p (enabledSt p.st) a = _
+    simp [setPairSt, enabledSt, USER_TOTAL, DEFAULT_SPECIAL]
+  · intro x hx
+    exact setPairSt_other s.pairs p _ hx
+
+/-- the router adds no failure of its own: when the conditions of `enable_by_user_requires`
+    hold the call succeeds -/
+theorem enable_by_user_no_extra_failure {s : St} {c a : Addr} {k : LTok} {amount : Nat}
+    {p : PairRec} {cv : Tok × Nat} {cfg : EnableCfg}
+    (h0 : 0 < amount) (hb : amount ≤ s.lbal c k) (h1 : s.active = true)
+    (hc : checkIsPairSc s.pairMap s.pairs a = some ()) (hp : s.pairs a = some p)
+    (h2 : p.st.status = .partialActive) (h3 : k.orig = a)
+    (hcv : lpValue s.commonToks p amount = some cv) (hcfg : s.enableCfg cv.1 = some cfg)
+    (h4 : k.coll = cfg.lockedTok) (h5 : cfg.minValue ≤ cv.2)
+    (h6 : cfg.minPeriod ≤ lockedEpochs s.epoch k.unlock) (h7 : p.st.adder = some c) :
+    ∃ r, step s (.enableByUser c a k amount) = some r :=
+  enableByUser_complete h0 hb h1 hc hp h2 h3 hcv hcfg h4 h5 h6 h7
+
+/-- A paused pair cannot be resumed by a user: while the pair's state is Inactive,
+    `setSwapEnabledByUser` fails for every caller and every payment — any amount of any locked
+    token class, or any plain token.  (The same holds for an Active pair: only PartialActive
+    passes.) -/
+theorem paused_not_resumable_by_user {s : St} {a : Addr} {p : PairRec}
+    (hp : s.pairs a = some p) (hst : p.st.status ≠ .partialActive) (c : Addr) :
+    (∀ k amount, step s (.enableByUser c a k amount) = none) ∧
+    (∀ tok amount, step s (.enablePlain c a tok amount) = none) := by
+  refine ⟨fun k amount => ?_, fun _ _ => rfl⟩
+  cases h : step s (.enableByUser c a k amount) with
+  | none => rfl
+  | some r =>
+    have h' : step s (.enableByUser c a k amount) = some (r.1, r.2) := by rw [h]
+    obtain ⟨_, _, q, _, _, hq, hpart, _⟩ := enable_by_user_requires h'
+    rw [hp] at hq
+    cases hq
+    exact absurd hpart hst
+
+/-- Over whole histories: a registered pair that is Inactive and holds liquidity (= paused by the
+    owner; a pair without liquidity is still in its bootstrap state, which `addInitialLiquidity`
+    is meant to leave) stays Inactive with that liquidity under every continuation `more` of the
+    history — any operations by any callers, `setSwapEnabledByUser` included — that does not
+    contain the owner's `resume` of that pair. -/
+theorem paused_stays_paused (owner self : Addr) (template : Bool) (foreign : List PairRec)
+    (funds : Addr → Nat → Nat) (ops more : List Op) (a : Addr)
+    (hreg : a ∈ (run (init owner self template foreign funds) ops).pairMap.map Prod.snd)
+    (hpa : Paused (run (init owner self template foreign funds) ops).pairs a)
+    (hno : Op.resume owner a ∉ more) :
+    Paused (run (run (init owner self template foreign funds) ops) more).pairs a := by
+  have hi := run_inv ops (inv_init owner self template foreign funds)
+  obtain ⟨e, he, rfl⟩ := List.mem_map.mp hreg
+  refine run_paused more (hi.lt e he).2 hpa ?_
+  rw [run_owner]
+  exact hno
+
+/-- only the owner changes the enable-by-user configuration: a step that changes the whitelist
+    of common tokens or any per-token config is one of the three configuration endpoints called
+    by the owner -/
+theorem enable_config_owner_only {s s' : St} {op : Op} {o : Out} (h : step s op = some (s', o))
+    (hne : s'.commonToks ≠ s.commonToks ∨ s'.enableCfg ≠ s.enableCfg) :
+    (∃ common locked mv mp, op = .configEnable s.owner common locked mv mp) ∨
+    (∃ toks, op = .addCommon s.owner toks) ∨ (∃ toks, op = .removeCommon s.owner toks) := by
+  have same : s'.commonToks = s.commonToks → s'.enableCfg = s.enableCfg → False := by
+    intro h1 h2
+    rcases hne with hn | hn
+    · exact hn h1
+    · exact hn h2
+  cases op with
+  | configEnable c common locked mv mp =>
+    obtain ⟨hc, _⟩ := configEnable_spec h
+    exact Or.inl ⟨common, locked, mv, mp, by rw [hc]⟩
+  | addCommon c toks =>
+    obtain ⟨hc, _⟩ := addCommon_spec h
+    exact Or.inr (Or.inl ⟨toks, by rw [hc]⟩)
+  | removeCommon c toks =>
+    obtain ⟨hc, _⟩ := removeCommon_spec h
+    exact Or.inr (Or.inr ⟨toks, by rw [hc]⟩)
+  | createPair c t1 t2 ad f =>
+    obtain ⟨fp, _, _, _, _, _, _, _, _, _, _, _, rfl⟩ := createPair_spec h
+    exact (same rfl rfl).elim
+  | removePair c t1 t2 =>
+    obtain ⟨_, _, _, _, _, _, _, rfl⟩ := removePair_spec h
+    exact (same rfl rfl).elim
+  | setCreation c b =>
+    obtain ⟨_, rfl⟩ := setCreation_frame h
+    exact (same rfl rfl).elim
+  | setTemplate c =>
+    obtain ⟨_, rfl⟩ := setTemplate_frame h
+    exact (same rfl rfl).elim
+  | pause c a =>
+    obtain ⟨_, h2⟩ := setState_spec h
+    rcases h2 with ⟨_, rfl⟩ | ⟨_, _, p, _, rfl⟩ <;> exact (same rfl rfl).elim
+  | resume c a =>
+    obtain ⟨_, h2⟩ := setState_spec h
+    rcases h2 with ⟨_, rfl⟩ | ⟨_, _, p, _, rfl⟩ <;> exact (same rfl rfl).elim
+  | setFeeOn c a tok =>
+    obtain ⟨_, _, _, p, _, rfl⟩ := setFeeOn_spec h
+    exact (same rfl rfl).elim
+  | setFeeOff c a i tok =>
+    obtain ⟨_, _, _, p, _, _, _, rfl⟩ := setFeeOff_spec h
+    exact (same rfl rfl).elim
+  | multi c tokIn amount hops =>
+    obtain ⟨r, _, _, _, rfl⟩ := multiPairSwap_spec h
+    exact (same rfl rfl).elim
+  | addInitial u a a1 a2 =>
+    simp only [step, addInitial, Option.bind_eq_bind, Option.bind_eq_some_iff, Option.pure_def,
+      Option.some.injEq, Prod.mk.injEq] at h
+    obtain ⟨p, _, _, _, _, _, r, _, rfl, _⟩ := h
+    exact (same rfl rfl).elim
+  | addLiq u a a1 a2 m1 m2 =>
+    simp only [step, addLiq, Option.bind_eq_bind, Option.bind_eq_some_iff, Option.pure_def,
+      Option.some.injEq, Prod.mk.injEq] at h
+    obtain ⟨p, _, _, _, r, _, _, _, _, _, rfl, _⟩ := h
+    exact (same rfl rfl).elim
+  | removeLiq u a lp m1 m2 =>
+    simp only [step, removeLiq, Option.bind_eq_bind, Option.bind_eq_some_iff, Option.pure_def,
+      Option.some.injEq, Prod.mk.injEq] at h
+    obtain ⟨p, _, _, _, r, _, rfl, _⟩ := h
+    exact (same rfl rfl).elim
+  | swapIn u a ti x tq m =>
+    simp only [step, swapIn, Option.bind_eq_bind, Option.bind_eq_some_iff, Option.pure_def,
+      Option.some.injEq, Prod.mk.injEq] at h
+    obtain ⟨p, _, _, _, _, _, r, _, rfl, _⟩ := h
+    exact (same rfl rfl).elim
+  | swapOut u a ti mx tq out =>
+    simp only [step, swapOut, Option.bind_eq_bind, Option.bind_eq_some_iff, Option.pure_def,
+      Option.some.injEq, Prod.mk.injEq] at h
+    obtain ⟨p, _, _, _, _, _, r, _, rfl, _⟩ := h
+    exact (same rfl rfl).elim
+  | enableByUser c a k amount =>
+    obtain ⟨_, _, _, _, p, _, _, _, _, _, _, _, _, _, _, _, _, rfl⟩ := enableByUser_spec h
+    exact (same rfl rfl).elim
+  | enablePlain c a tok amount => cases h
+  | lock u coll orig amount unlock =>
+    obtain ⟨_, _, _, h4⟩ := lockTokens_spec h
+    rcases h4 with ⟨_, rfl, _⟩ | ⟨_, _, rfl⟩ <;> exact (same rfl rfl).elim
+  | unlock u k amount =>
+    obtain ⟨_, _, _, _, rfl⟩ := unlockTokens_spec h
+    exact (same rfl rfl).elim
+  | advance e =>
+    obtain ⟨_, rfl⟩ := advance_spec h
+    exact (same rfl rfl).elim
+
+/-- … and the configuration endpoints themselves: owner only, valid ids, and a per-token config
+    only for a whitelisted common token -/
+theorem enable_config_guards {s s' : St} {c : Addr} {common locked : Tok} {mv mp : Nat} {o : Out}
+    (h : step s (.configEnable c common locked mv mp) = some (s', o)) :
+    c = s.owner ∧ validTok common ∧ validTok locked ∧ common ∈ s.commonToks ∧
+    s'.enableCfg common = some ⟨locked, mv, mp⟩ ∧
+    (∀ t, t ≠ common → s'.enableCfg t = s.enableCfg t) := by
+  obtain ⟨h1, h2, h3, h4, rfl⟩ := configEnable_spec h
+  exact ⟨h1, h2, h3, h4, upd_same _ _ _, fun t ht => upd_other _ _ ht⟩
+
 /-- a failed call leaves the state untouched (atomicity as modelled) -/
 theorem failed_op_no_effect (s : St) (op : Op) (h : step s op = none) : run s [op] = s := by
   simp [run, h]
@@ -438,5 +683,38 @@ example :
     (step s (.multi 2 1 10000 [⟨1000, .bad, 2, 1⟩])).isNone = true ∧
     (step s (.multi 2 1 10000 [⟨1000, .fixedIn, 2, 1⟩, ⟨1001, .fixedOut, 3, 500000⟩])).isNone = true := by
   decide
+
+/-- user 1 is the initial liquidity adder of pair (1,2): the owner whitelists token 2 and asks
+    for at least 1 000 000 of it locked for 10 epochs; user 1 adds the initial liquidity, locks
+    his LP tokens until epoch 30 in the simple-lock 501 -/
+def exEnable : List Op :=
+  [.createPair 100 1 2 1 (some (300, 50)), .addInitial 1 1000 3000000 2000000,
+   .addCommon 100 [2], .configEnable 100 2 501 1000000 10, .advance 20,
+   .lock 1 501 1000 1999000 30]
+
+example :
+    let s := run (init 100 200 true [] exFunds) exEnable
+    let k : LTok := ⟨501, 1000, 30⟩
+    -- the adder enables swaps: Active, fees 1000 / 50, tokens back, router holds nothing
+    (step s (.enableByUser 1 1000 k 1999000)).map (fun r =>
+        (r.1.pairs 1000).map fun p => (p.st.status, p.st.total, p.st.special)) =
+      some (some (.active, 1000, 50)) ∧
+    (step s (.enableByUser 1 1000 k 1999000)).map (fun r => (r.1.lbal 1 k, r.1.lbal 200 k)) =
+      some (1999000, 0) ∧
+    (step s (.enableByUser 1 1000 k 1999000)).map (fun r => r.2.back) = some (some (k, 1999000)) ∧
+    -- somebody else, too little value, too short a lock (one epoch later), a plain token: refused
+    (step s (.enableByUser 2 1000 k 1999000)).isNone = true ∧
+    (step s (.enableByUser 1 1000 k 1000)).isNone = true ∧
+    (step (run s [.advance 21]) (.enableByUser 1 1000 k 1999000)).isNone = true ∧
+    (step s (.enablePlain 1 1000 1 5000)).isNone = true ∧
+    -- a non-owner cannot configure
+    (step s (.configEnable 1 2 501 0 0)).isNone = true ∧ (step s (.addCommon 1 [1])).isNone = true ∧
+    -- paused by the owner (before or after the user enabled swaps): the adder cannot bring it back
+    (step (run s [.pause 100 1000]) (.enableByUser 1 1000 k 1999000)).isNone = true ∧
+    (step (run s [.enableByUser 1 1000 k 1999000, .pause 100 1000])
+        (.enableByUser 1 1000 k 1999000)).isNone = true ∧
+    Paused (run s [.enableByUser 1 1000 k 1999000, .pause 100 1000]).pairs 1000 := by
+  refine ⟨by decide, by decide, by decide, by decide, by decide, by decide, by decide, by decide,
+    by decide, by decide, by decide, ⟨_, rfl, by decide, by decide⟩⟩
 
 end Mx.C14
